@@ -244,9 +244,9 @@ Definition obs1 (o : op) (s : st1) : out :=
   | OSize => RNum (size1 s)
   | ODirty => RBool (dirty1 s)
   | OIter r lo hi => RKVs (maybe_rev r (iter1 (cur_val s) lo hi (keys1 s)))
-  | OIterFlags lo hi =>
-      RKFVs (flat_map (fun p => if in_bounds lo hi (fst p) && negb (k_del (snd p))
-                                then [(fst p, k_flags (snd p), cur_val s (snd p))] else []) (keys1 s))
+  | OIterFlags r lo hi =>
+      RKFVs (maybe_rev r (flat_map (fun p => if in_bounds lo hi (fst p) && negb (k_del (snd p))
+                                then [(fst p, k_flags (snd p), cur_val s (snd p))] else []) (keys1 s)))
   | OSnapGet k => RVal (match kfind k (keys1 s) with Some ent => snap_val s ent | None => None end)
   | OSnapIter r lo hi => RKVs (maybe_rev r (iter1 (snap_val s) lo hi (keys1 s)))
   | OInspect h =>
